@@ -328,6 +328,14 @@ retry:
 			}
 
 			if buf.preds[i].dcasNext(i, next, x, false, false) {
+				// A concurrent delete may have marked this node after the check above
+				// and completed its unlinking pass before the node got linked at this
+				// level. Unlink it here, while the barrier token of this insert still
+				// keeps the node from being reclaimed.
+				if _, deleted = x.getNext(i); deleted {
+					s.findPath(itm, insCmp, buf, sts)
+					goto finished
+				}
 				break fixThisLevel
 			}
 
